@@ -165,6 +165,11 @@ def gen_codec_desc(rng, max_structs=4, max_fields=6, depth=3, var=True):
             ids.sort()
         if rng.random() < 0.2:
             ids = big_ids(rng, nf)
+        if nf >= 2 and rng.random() < 0.1:
+            # two fields with one id (accepted by parser and verifier): both are fields of the struct, the one declared first
+            # comes first on the wire
+            a, b = rng.sample(range(nf), 2)
+            ids[b] = ids[a]
         fields = []
         prev = [x[0] for x in d.structs]
         for j in range(nf):
